@@ -115,6 +115,8 @@ pub struct Cfg {
     pub audit_cap: usize,
     /// batch events: 0 none, 2 batches of two tablets, 3 also batches of three
     pub batch: u8,
+    /// node D has no datacenter information
+    pub d_no_dc: bool,
 }
 
 impl Cfg {
@@ -122,7 +124,7 @@ impl Cfg {
         serde_json::json!({
             "name": self.name, "universe": self.universe, "probes": self.probes,
             "tables": self.tables.iter().map(|(n, v)| serde_json::json!([n, v])).collect::<Vec<_>>(),
-            "rsets": self.rsets, "combos": self.combos, "move_b": self.move_b, "toggle_d": self.toggle_d, "batch": self.batch,
+            "rsets": self.rsets, "combos": self.combos, "move_b": self.move_b, "toggle_d": self.toggle_d, "batch": self.batch, "d_no_dc": self.d_no_dc,
         })
     }
     pub fn from_json(v: &serde_json::Value) -> Option<Cfg> {
@@ -142,6 +144,7 @@ impl Cfg {
             audit_mod: 0,
             audit_cap: 0,
             batch: v["batch"].as_u64().unwrap_or(0) as u8,
+            d_no_dc: v["d_no_dc"].as_bool().unwrap_or(false),
         })
     }
 }
@@ -154,6 +157,8 @@ pub struct Topo {
     pub d_present: bool,
     pub a_variant: bool,
     pub b_dc3: bool,
+    /// D reports no datacenter (a peers row without data_center): its replicas are in no per-DC list
+    pub d_no_dc: bool,
 }
 
 impl Topo {
@@ -164,7 +169,11 @@ impl Topo {
             v.push(mk(LABEL_C, "10.0.0.3:9042", "dc1"));
         }
         if self.d_present {
-            v.push(mk(LABEL_D, "10.0.0.4:9042", "dc2"));
+            let mut d = mk(LABEL_D, "10.0.0.4:9042", "dc2");
+            if self.d_no_dc {
+                d.datacenter = None;
+            }
+            v.push(d);
         }
         v
     }
@@ -278,7 +287,7 @@ impl TabModel {
     }
 
     pub fn fresh(&self) -> Obj {
-        let topo = Topo { c_present: true, d_present: false, a_variant: false, b_dc3: false };
+        let topo = Topo { c_present: true, d_present: false, a_variant: false, b_dc3: false, d_no_dc: self.cfg.d_no_dc };
         let world = World::new(&topo.nodes(), &keyspaces(&self.cfg, Schema::AllPresent));
         let mut reference = RefMap::new();
         reference.maintenance(&tablet_tables(&self.cfg, Schema::AllPresent), &BTreeSet::new(), &topo.known());
@@ -403,7 +412,7 @@ impl TabModel {
     }
 
     fn next_topo(topo: &Topo, toggle_c: bool, toggle_d: bool, recreate_a: bool, move_b: bool) -> Topo {
-        Topo { c_present: topo.c_present ^ toggle_c, d_present: topo.d_present ^ toggle_d, a_variant: topo.a_variant ^ recreate_a, b_dc3: topo.b_dc3 ^ move_b }
+        Topo { c_present: topo.c_present ^ toggle_c, d_present: topo.d_present ^ toggle_d, a_variant: topo.a_variant ^ recreate_a, b_dc3: topo.b_dc3 ^ move_b, d_no_dc: topo.d_no_dc }
     }
 
     pub fn apply_ev(&self, o: &mut Obj, ev: &Ev) -> Result<(), String> {
